@@ -31,6 +31,8 @@ void vs_policy_pct(uint64_t seed, int depth);          /* PCT-style priorities w
 void vs_policy_replay(const char *schedule);           /* "0 1 1! 2~ ..." */
 void vs_set_spurious(int cas_permille, int cv_permille);/* probability of spurious weak-CAS failure / condvar wake-up */
 void vs_set_max_steps(long n);
+void vs_kill_after(int tid, long k);                   /* after vs_spawn: thread `tid` takes exactly k steps, then is never
+                                                          scheduled again (its process died); it counts as finished */
 
 /* ---- run ---- */
 enum { VS_OK = 0, VS_DEADLOCK = 1, VS_STEP_LIMIT = 2, VS_REPLAY_DIVERGED = 3, VS_LIVELOCK = 4 };
